@@ -119,7 +119,7 @@ fn harmonic_mean(a: int, b:int)->float{
 
 fn lcm(a: int, b: int)->int{
     let g = gcd(a,b);
-    if(g == 0, 0, trunc(a.abs()/g)*b.abs())
+    if(g == 0, 0, div_floor(a.abs(), g)*b.abs())
 }
 
 fn permutation(n: int, i: int)->Sequence<int>{
